@@ -122,6 +122,9 @@ def convert_response(response) -> List[Trigger]:
         # from the incoming tracepoints create a Trigger with actions
         trigger = build_trigger(r.ID, r.path, r.line_number, dict(r.args), [w for w in r.watches],
                                 __convert_metric_definition(r.metrics))
+        if trigger is None:
+            # we cannot interpret this tracepoint (e.g. unknown stage): skip it, the others are still installed
+            continue
         location_id = trigger.id
         # if we already have a trigger for this location then merge the new actions into it
         if location_id in all_triggers:
